@@ -7,6 +7,24 @@ HERE = os.path.dirname(os.path.dirname(os.path.abspath(__file__)))
 
 # property -> (technique, level text, level note, design ref)
 CLAIMED = {
+    "C10": (
+        "whole-package reference-coverage analysis: type-driven computation, from the dataclass "
+        "annotations, of which sub-objects transitively hold IDs / ODXLINK references / SNREFs, "
+        "checked against what the three phase methods of every class visit (with guard "
+        "agreement and super() chaining); structural rules for lookup order, uniqueness, "
+        "database ownership, phase order and SNREF scope",
+        "Decides the traversal and lookup discipline of reference resolution for every class "
+        "(about 1600 obligations): each reference field is consumed by a resolve call, each "
+        "sub-object that needs a phase is visited by that phase under guards that agree between "
+        "the phases, overrides chain to their base, resolve() searches innermost first and "
+        "returns the first hit, resolve_snref requires exactly one candidate of the expected "
+        "type, imported IDs go to a real copy and never overwrite, refresh orders the phases, "
+        "SNREFs are looked up in the context layer's inherited view and retargeting reaches all "
+        "ancestors.",
+        "Not decided: which object a reference binds to in a concrete database. Trusted: the "
+        "annotation unwrapping of sa/types.py and the exemption tables REF_EXEMPT / PHASE_EXEMPT "
+        "(each with a reason).",
+        "DESIGN.md section 3, C10"),
     "C08": (
         "writer/reader agreement rules: normal-form equality between get_static_bit_length and "
         "the bit lengths handed to the atomic codec, the decoder's byte-consumption formula in "
